@@ -1,4 +1,5 @@
 import CstModel.Props.C02
+import CstModel.Props.C03
 open Cst.C02
 #print axioms history_canonical
 #print axioms observed_range
@@ -8,3 +9,5 @@ open Cst.C02
 #print axioms slice_middle
 #print axioms text_decomposition
 #print axioms resolve_text_slice
+#print axioms Cst.C03.forwarders_elem_ok
+#print axioms Cst.C03.forwarders_resolved_ok
